@@ -105,6 +105,27 @@ fn known_upward_sites() -> &'static Vec<String> {
     })
 }
 
+/// holding sites of the open finding KF-C15-1 (sites where a lock was taken that another blocked thread waits for)
+fn known_hold_sites() -> &'static Vec<String> {
+    static K: OnceLock<Vec<String>> = OnceLock::new();
+    K.get_or_init(|| {
+        let path = format!("{}/known_findings.json", verif_dir());
+        let Ok(text) = std::fs::read_to_string(path) else { return vec![] };
+        let Ok(v) = serde_json::from_str::<Value>(&text) else { return vec![] };
+        let mut out = vec![];
+        for f in v["findings"].as_array().cloned().unwrap_or_default() {
+            if f["property"] == "C15" && f["status"] == "open" {
+                for s in f["hold_sites"].as_array().cloned().unwrap_or_default() {
+                    if let Some(s) = s.as_str() {
+                        out.push(s.to_string());
+                    }
+                }
+            }
+        }
+        out
+    })
+}
+
 /// wait sites of the open finding KF-C15-1 (read from known_findings.json, never written at run time)
 fn known_wait_sites() -> &'static Vec<String> {
     static K: OnceLock<Vec<String>> = OnceLock::new();
@@ -150,9 +171,35 @@ fn deadlock_signature(dl: &DeadlockInfo) -> (String, String) {
             held.iter().map(|h| format!("{:?} {} from {}", h.mode, h.class, h.site)).collect::<Vec<_>>()
         ));
     }
+    // the other half of every wait: where the lock that is waited for was taken by the thread(s) holding it. A lock that is
+    // held ACROSS a blocking request at a place where the pinned code releases it at once shows up as a new holding site even
+    // when all waits sit at recorded sites.
+    let mut holds: Vec<String> = vec![];
+    for (_, r, _) in &dl.blocked {
+        for (_, _, held2) in &dl.blocked {
+            for h in held2.iter().filter(|h| h.lock == r.lock) {
+                holds.push(format!("{}/{}/{:?}", fn_of_site(&h.site), h.class, h.mode));
+            }
+        }
+    }
+    holds.sort();
+    holds.dedup();
+    if std::env::var("VERIF_DUMP_SITES").is_ok() {
+        for p in &holds {
+            eprintln!("HOLDSITE {p}");
+        }
+    }
     let known = known_wait_sites();
     let unknown: Vec<&String> = parts.iter().filter(|p| !known.contains(p)).collect();
-    let sig = if unknown.is_empty() { "deadlock:all-blocked-requests-at-recorded-wait-sites".to_string() } else { format!("deadlock:new-wait-site:{}", unknown[0]) };
+    let known_h = known_hold_sites();
+    let unknown_h: Vec<&String> = holds.iter().filter(|p| !known_h.contains(p)).collect();
+    let sig = if !unknown.is_empty() {
+        format!("deadlock:new-wait-site:{}", unknown[0])
+    } else if !unknown_h.is_empty() {
+        format!("deadlock:new-holding-site:{}", unknown_h[0])
+    } else {
+        "deadlock:all-blocked-requests-at-recorded-wait-sites".to_string()
+    };
     (sig, format!("wait sites: {}\n{}", parts.join(" + "), detail.join("; ")))
 }
 
@@ -311,10 +358,14 @@ fn report(ctx: &Ctx, which: Which, c: &ConcCase, f: Failure, st: &mut Stats) {
 
 /// systematic exploration: all schedules of the case up to a preemption bound (iterative context bounding)
 fn explore(ctx: &Ctx, which: Which, threads: &[Vec<COp>], bound: usize, max_runs: usize, st: &mut Stats) {
-    let mut stack: Vec<Vec<u8>> = vec![vec![]];
+    // breadth first over the number of preemptions (all schedules with one preemption before any with two); within one level
+    // the candidates are taken alternately from both ends, so that a capped exploration covers early AND late preemption points
+    let mut stack: std::collections::VecDeque<Vec<u8>> = std::collections::VecDeque::from(vec![vec![]]);
     let mut runs = 0;
     let mut seen_sigs: Vec<String> = vec![];
-    while let Some(prefix) = stack.pop() {
+    let mut from_front = true;
+    while let Some(prefix) = if from_front { stack.pop_front() } else { stack.pop_back() } {
+        from_front = !from_front;
         if runs >= max_runs {
             st.class("explore:budget-exhausted");
             break;
@@ -340,7 +391,7 @@ fn explore(ctx: &Ctx, which: Which, threads: &[Vec<COp>], bound: usize, max_runs
                 np.push(alt);
                 let pre = np.iter().filter(|x| **x != 0).count();
                 if pre <= bound {
-                    stack.push(np);
+                    stack.push_back(np);
                 }
             }
         }
@@ -403,6 +454,11 @@ pub fn run(ctx: &Ctx, which: Which) {
         COp { code: 32, a: 23, b: 2 },
         COp { code: 31, a: 26, b: 0 },
         COp { code: 19, a: 23, b: 0 },
+        // the same reference element re-targeted to ANOTHER target (against {24, 7, 19})
+        COp { code: 24, a: 7, b: 14 },
+        // renaming the two files of the model
+        COp { code: 36, a: 0, b: 0 },
+        COp { code: 36, a: 1, b: 0 },
     ];
     let mut pairs: Vec<(COp, COp)> = vec![];
     for w in &writers {
@@ -428,10 +484,8 @@ pub fn run(ctx: &Ctx, which: Which) {
             }
         }
     }
-    let (bound, max_runs) = ctx.tier.pick((1usize, 25usize), (2usize, 400usize));
-    // quick: a seeded third of the pairs
-    let mut sm = SplitMix(ctx.seed_for("pairs"));
-    let pairs: Vec<(COp, COp)> = pairs.into_iter().filter(|_| ctx.tier == Tier::Thorough || std::env::var("VERIF_ALLPAIRS").is_ok() || sm.below(3) == 0).collect();
+    // every pair in both tiers; quick: 16 schedules per pair (one preemption, early and late points first)
+    let (bound, max_runs) = ctx.tier.pick((1usize, 16usize), (2usize, 400usize));
     par_items(ctx, &pairs, |(x, y), st| {
         st.class("pairs-explored");
         explore(ctx, which, &[vec![*x], vec![*y]], bound, max_runs, st);
